@@ -228,7 +228,14 @@ fn run_scenario(
                 }
                 if let Some(v) = o.violation {
                   st.violation_count += 1;
-                  if st.violations.len() < 64 {
+                  // keep the first few runs of every distinct signature, so that a
+                  // frequent (known) violation cannot crowd out a rare new one
+                  let same = st
+                    .violations
+                    .iter()
+                    .filter(|r| r.violation.rule == v.rule && r.violation.site == v.site)
+                    .count();
+                  if same < 2 && st.violations.len() < 400 {
                     st.violations.push(RunRecord {
                       index,
                       seed,
